@@ -1,4 +1,130 @@
-From Coq Require Import QArith.
-From VRP Require Import Base.Tac Model.SlotQ.
-Theorem C18_placeholder : forall p, s_n (slot_new p) = 0%nat.
-Proof. reflexivity. Qed.
+(* C18 — Adaptive operator selection and termination math stay numerically sane.
+   Only the property theorems, each closed by `exact`.  Clauses of the statement:
+   (A) learning state finite and valid for any reward history   -> C18_slot_*            (exact arithmetic, unbounded)
+   (B) sampling / arg-max never fail, pick a configured operator -> C18_sampler_*, C18_argmax_*, C18_weighted_*
+   (C) rewards finite and within the documented range            -> C18_reward_* (true bound 3(2N+1)); documented [0,6]: _partial + _refuted
+   (D) termination estimates within [0,1]                        -> C18_estimate_*
+   (E) variation criterion fires iff cv of every objective <= thr -> C18_min_variation_*
+   Over f64 (not exact arithmetic) the hull clause of (A) and finiteness in (C) fail: C18_float_*_refuted (witnesses on the
+   primitive-float twin); the other f64 invariants are validated on every run, not proved. *)
+From Coq Require Import QArith Qabs Qminmax Floats.
+From VRP Require Import Base.Tac Base.TotalCmp Model.SlotQ Model.SlotF Model.Reward Model.Termination.
+From VRP Require Import Proofs.SlotQP Proofs.SlotFP Proofs.RewardP Proofs.TerminationP.
+Open Scope Q_scope.
+
+(* ---------------- (A) slot machine state, for every prior and every reward sequence ---------------- *)
+Theorem C18_slot_count : forall prior rs, s_n (slot_run prior rs) = length rs.
+Proof. exact count_ok. Qed.
+Theorem C18_slot_alpha_closed_form : forall prior rs, s_alpha (slot_run prior rs) == 1 + qn (length rs) / 2.
+Proof. exact alpha_closed. Qed.
+Theorem C18_slot_alpha_positive : forall prior rs, 0 < s_alpha (slot_run prior rs).
+Proof. exact alpha_pos. Qed.
+Theorem C18_slot_beta_at_least_10 : forall prior rs, 10 <= s_beta (slot_run prior rs).
+Proof. exact beta_ge_10. Qed.
+Theorem C18_slot_beta_monotone : forall prior rs r, s_beta (slot_run prior rs) <= s_beta (slot_run prior (rs ++ [r])).
+Proof. exact beta_monotone. Qed.
+Theorem C18_slot_variance_nonneg : forall prior rs, 0 <= s_v (slot_run prior rs).
+Proof. exact variance_nonneg. Qed.
+(* the mean is the average of the rewards seen (the prior is forgotten after the first update) ... *)
+Theorem C18_slot_mean_is_average : forall prior rs, qn (length rs) * s_mu (slot_run prior rs) == qsuml rs.
+Proof. exact mean_is_average. Qed.
+(* ... hence inside their hull *)
+Theorem C18_slot_mean_in_hull : forall prior rs lo hi,
+  rs <> [] -> (forall r, In r rs -> lo <= r <= hi) -> lo <= s_mu (slot_run prior rs) <= hi.
+Proof. exact mean_in_hull. Qed.
+(* over f64 the hull clause fails by rounding: prior 1.0, single reward 5e-324 -> mean +0.0 < 5e-324 *)
+Theorem C18_float_mean_in_hull_refuted :
+  let s := fslot_update (fslot_new (f_of_bits 4607182418800017408)) (f_of_bits 1) in
+  bits_of_f (f_mu s) = 0%Z /\ PrimFloat.ltb (f_mu s) (f_of_bits 1) = true.
+Proof. exact float_mean_leaves_hull. Qed.
+
+(* ---------------- (B) sampling and selection ---------------- *)
+(* arguments handed to Gamma::new / Normal::new are valid for every state and every non-negative gamma draw g *)
+Theorem C18_sampler_arguments_valid : forall prior rs g, 0 <= g ->
+  let q := sample_args (slot_run prior rs) g in
+  0 < g_shape q /\ 0 < g_scale q /\ 0 < n_variance q.
+Proof. exact sample_args_valid. Qed.
+(* random_argmax: for every random stream o, a non-empty list yields an index in range whose value is maximal *)
+Theorem C18_argmax_some_in_range_maximal : forall o keys, keys <> [] ->
+  exists i, random_argmax o keys = Some i /\ (i < length keys)%nat /\ forall x, In x keys -> (x <= nth i keys 0)%Z.
+Proof. exact random_argmax_spec. Qed.
+Theorem C18_argmax_none_iff_empty : forall o keys, random_argmax o keys = None <-> keys = [].
+Proof. exact random_argmax_none. Qed.
+(* weighted: for every draw vector, non-empty weights yield an index in range *)
+Theorem C18_weighted_in_range : forall es ws, ws <> [] -> length es = length ws ->
+  exists i, weighted es ws = Some i /\ (i < length ws)%nat.
+Proof. exact weighted_spec. Qed.
+
+(* ---------------- (C) rewards ---------------- *)
+(* for any objective answers o1 o2 and any fitness vectors: 0 <= reward <= 3(2N+1), N = number of objectives *)
+Theorem C18_reward_range : forall best o1 o2 fnew finit,
+  0 <= distance_reward best o1 o2 fnew finit <= 3 * (2 * qnat (length fnew) + 1).
+Proof. exact distance_reward_bounds. Qed.
+Theorem C18_reward_range_nonneg_fitness : forall best o1 o2 fnew finit,
+  Forall (Qle 0) fnew -> Forall (Qle 0) finit -> (forall fb, best = Some fb -> Forall (Qle 0) fb) ->
+  0 <= distance_reward best o1 o2 fnew finit <= 3 * (qnat (length fnew) + 1).
+Proof. exact distance_reward_bounds_nonneg. Qed.
+(* the documented range [0, 6] holds for a single non-negative objective only (missing for the full clause: N >= 2, negative fitness) *)
+Theorem C18_reward_documented_range_partial : forall best o1 o2 a finit,
+  0 <= a -> Forall (Qle 0) finit -> (forall fb, best = Some fb -> Forall (Qle 0) fb) ->
+  0 <= distance_reward best o1 o2 [a] finit <= 6.
+Proof. exact distance_reward_single_objective. Qed.
+Theorem C18_reward_documented_range_refuted :
+  distance_reward (Some [1; 1; 1]) Lt Lt [0; 1; 1] [1; 1; 1] == 12.
+Proof. exact reward_above_6_three_objectives. Qed.
+Theorem C18_reward_documented_range_opposite_sign_refuted :
+  distance_reward (Some [1]) Lt Lt [-(1)] [1] == 9.
+Proof. exact reward_above_6_opposite_sign. Qed.
+Theorem C18_reward_multiplier_range : forall ratio median duration imp,
+  1 / 2 < perf_multiplier ratio median duration imp <= 3.
+Proof. exact perf_multiplier_bounds. Qed.
+Theorem C18_reward_total_range : forall best finit fnew ratio median duration,
+  0 <= step_reward best finit fnew ratio median duration <= 9 * (2 * qnat (length fnew) + 1).
+Proof. exact step_reward_bounds. Qed.
+(* over f64 finiteness fails for finite fitness near f64::MAX: |1.7e308 - (-1.7e308)| / 1.7e308 = +inf *)
+Theorem C18_float_reward_finite_refuted :
+  run_relvalueF 9218378953502702454 18441750990357478262 = 9218868437227405312%Z.
+Proof. exact float_rel_value_overflows. Qed.
+
+(* ---------------- (D) termination estimates ---------------- *)
+Theorem C18_estimate_max_generation_unit : forall g l, 0 <= est_max_generation g l <= 1.
+Proof. exact est_max_generation_unit. Qed.
+Theorem C18_estimate_max_time_unit : forall e l, 0 <= e -> 0 <= l -> 0 <= est_max_time e l <= 1.
+Proof. exact est_max_time_unit. Qed.
+Theorem C18_estimate_composite_unit : forall es, (forall x, In x es -> 0 <= x <= 1) -> 0 <= est_composite es <= 1.
+Proof. exact est_composite_unit. Qed.
+
+(* ---------------- (E) min-variation criterion (sample interval) ---------------- *)
+(* update_and_check fires iff the window is full (generation >= sample - 1) and no objective column of the updated window has cv > thr *)
+Theorem C18_min_variation_fires_iff : forall sample thr st g f,
+  snd (mv_update_and_check sample thr st g f) = true <->
+  (sample - 1 <= g)%nat /\
+  forall k, (k < width (mv_window sample st g f))%nat -> col_cv_gt (column k (mv_window sample st g f)) thr = false.
+Proof. exact mv_fires_iff. Qed.
+(* is_termination adds: a best solution exists, and the criterion is global or the phase is exploitation *)
+Theorem C18_min_variation_is_termination_iff : forall sample thr glob st g ph best,
+  snd (mv_is_termination sample thr glob st g ph best) = true <->
+  exists f, best = Some f /\ (glob = true \/ ph = 2%nat) /\ snd (mv_update_and_check sample thr st g f) = true.
+Proof. exact mv_is_termination_iff. Qed.
+(* `not (cv > thr)` is `cv <= thr`: for a positive mean and thr >= 0, variance <= (thr * mean)^2, i.e. cv^2 <= thr^2 *)
+Theorem C18_min_variation_cv_test_positive_mean : forall var mean thr, 0 < mean -> 0 <= thr ->
+  (cv_gt var mean thr = false <-> var <= (thr * mean) * (thr * mean)).
+Proof. exact cv_gt_false_pos. Qed.
+Theorem C18_min_variation_cv_test_zero_mean : forall var mean thr, mean == 0 -> (cv_gt var mean thr = false <-> 0 <= thr).
+Proof. exact cv_gt_zero_mean. Qed.
+Theorem C18_min_variation_cv_test_negative_mean : forall var mean thr, mean < 0 -> 0 <= thr -> cv_gt var mean thr = false.
+Proof. exact cv_gt_neg_mean. Qed.
+Theorem C18_min_variation_variance_nonneg : forall l, 0 <= variance_q l.
+Proof. exact variance_q_nonneg. Qed.
+
+(* ---------------- non-vacuity ---------------- *)
+Theorem C18_nonvacuous_slot : s_mu (slot_run 1 [1 # 2; 3 # 4]) == 5 # 8 /\ 10 < s_beta (slot_run 1 [1 # 2; 3 # 4]).
+Proof. split; reflexivity. Qed.
+Theorem C18_nonvacuous_min_variation :
+  snd (mv_update_and_check 2 (1 # 8) (Some [[9]; [0]]) 1 [7]) = true /\
+  snd (mv_update_and_check 2 (1 # 9) (Some [[9]; [0]]) 1 [7]) = false.
+Proof. split; reflexivity. Qed.
+Theorem C18_nonvacuous_float_twin :
+  bits_of_f (f_mu (fslot_run (f_of_bits 4607182418800017408) [f_of_bits 4602678819172646912; f_of_bits 4604930618986332160]))
+  = 4603804719079489536%Z.
+Proof. exact float_twin_example. Qed.
